@@ -80,7 +80,7 @@ theorem fstTerm_none_iff {l : List Ev} {t : Name} : fstTerm l t = none ↔ ∀ e
       by_cases he : Ev.isTerminalOf t e = true
       · simp [he]
       · simp only [he, Bool.false_eq_true, if_false, true_iff]
-        exact ⟨Bool.eq_false_iff.mpr he, this⟩
+        exact ⟨trivial, this⟩
 
 theorem fstTerm_some_of_mem {l : List Ev} {t : Name} {e : Ev} (he : e ∈ l) (ht : Ev.isTerminalOf t e = true) :
     ∃ a, fstTerm l t = some a := by
